@@ -72,7 +72,7 @@ def required(tier):
         "cover": [f"cls:{c}" for c in SINGLE_BASE + SINGLE_ROT + CROSS + tuple(CROSS_ROT)]
         + [f"container:{k}" for k in KINDS]
         + ["fam:recon", "fam:roundtrip", "fam:normalized", "alpha:0", "alpha:1", "alpha:mid", "use_pca:True", "use_pca:False",
-           "pca:truncated", "nsd:1", "nsd:2", "nan_features", "cplx:True", "recon:both_fields", "center:False"],
+           "pca:truncated", "nsd:1", "nsd:2", "nan_features", "cplx:True", "recon:both_fields", "center:False", "history:aged", "history:fresh"],
         "max_refused_share": 0.1,
     }
 
@@ -660,6 +660,11 @@ def run_case(case, obs):
             obs.cell("alpha:0" if a < 1e-12 else ("alpha:1" if a > 1 - 1e-12 else "alpha:mid"))
             if q[i] < pv[i]:
                 obs.cell("pca:truncated")
+    # every third case: the model object was fitted on other data of the same structure, queried and inverted
+    # before the fit that is judged (zoo._age) -- nothing of that may leak into the restored data
+    aged = bool(case["dseed"] % 3 == 0)
+    obs.cell(f"history:{'aged' if aged else 'fresh'}")
+    obs.tag(history="aged" if aged else "fresh")
     obs.note("n_modes", k)
     obs.note("pv", pv)
     obs.note("cond", conds)
@@ -690,7 +695,7 @@ def run_case(case, obs):
                 rot_kw = dict(n_modes=m, power=case["power"])
                 k = m
             weights = [F[0]["weights"]] if F[0]["weights"] is not None else None
-            fitted = zoo.fit(cls, [F[0]["data"]], sdims if len(sdims) > 1 else sdims[0], kw, rot_kw=rot_kw, weights=weights)
+            fitted = zoo.fit(cls, [F[0]["data"]], sdims if len(sdims) > 1 else sdims[0], kw, rot_kw=rot_kw, weights=weights, aged=aged)
         else:
             kw = dict(
                 n_modes=k,
@@ -712,7 +717,7 @@ def run_case(case, obs):
                 m = int(np.clip(2 + int(case["rfrac"] * (k - 1)), 2, k))
                 rot_kw, base_name = dict(n_modes=m, power=case["power"]), CROSS_ROT[cls][0]
                 k = m
-            fitted = zoo.fit(cls, [F[0]["data"], F[1]["data"]], sdims if len(sdims) > 1 else sdims[0], kw, rot_kw=rot_kw, base_name=base_name, weights=weights)
+            fitted = zoo.fit(cls, [F[0]["data"], F[1]["data"]], sdims if len(sdims) > 1 else sdims[0], kw, rot_kw=rot_kw, base_name=base_name, weights=weights, aged=aged)
     except RuntimeError as e:
         if rot and "did not converge" in str(e):
             # the iterative rotation gave up within max_iter: its documented refusal; convergence is C11's subject
